@@ -338,6 +338,19 @@ impl<Context: ServerContext> HttpRouter<Context> {
 
                     insert_var(&path, &mut varnames, &new_varname);
 
+                    // The wildcard also matches the empty remainder of the
+                    // path, so it cannot coexist with handlers registered
+                    // for the path that ends here.
+                    if node.methods.values().any(|hs| !hs.is_empty()) {
+                        panic!(
+                            "URI path \"{}\": attempted to register route for \
+                             variable path regex (variable name: \"{}\") when \
+                             a route already exists for the path that ends \
+                             before it",
+                            path, new_varname
+                        );
+                    }
+
                     let edges = node.edges.get_or_insert(
                         HttpRouterEdges::VariableRest(
                             new_varname.clone(),
@@ -388,6 +401,16 @@ impl<Context: ServerContext> HttpRouter<Context> {
                     }
                 }
             };
+        }
+
+        // See the analogous check above: a wildcard edge from this node
+        // already matches the path that ends here.
+        if let Some(HttpRouterEdges::VariableRest(varname, _)) = &node.edges {
+            panic!(
+                "URI path \"{}\": attempted to register route when a route \
+                 already exists for the remainder of the path as {}",
+                path, varname
+            );
         }
 
         let methodname = method.as_str().to_uppercase();
